@@ -82,11 +82,18 @@ def tdiv(a, b):
     absa = z3.If(a >= 0, a, -a)
     absb = z3.If(b >= 0, b, -b)
     q = absa / absb
-    return z3.If((a >= 0) == (b > 0), q, -q)
+    # the common case first (kept as one opaque term so that index polynomials do not cancel through it)
+    return z3.If(z3.And(a >= 0, b > 0), a / b, z3.If((a >= 0) == (b > 0), q, -q))
 
 
 def tmod(a, b):
-    return a - b * tdiv(a, b)
+    sa, sb = simp(a), simp(b)
+    if z3.is_int_value(sa) and z3.is_int_value(sb) and sb.as_long() != 0:
+        x, y = sa.as_long(), sb.as_long()
+        q = abs(x) // abs(y)
+        q = q if (x >= 0) == (y > 0) else -q
+        return z3.IntVal(x - y * q)
+    return z3.If(z3.And(a >= 0, b > 0), a % b, a - b * tdiv(a, b))
 
 
 def trunc(x):
@@ -1393,8 +1400,17 @@ class CExec:
             if not (simp(Z(base.off)).eq(z3.IntVal(0))):
                 raise CheckerError("fill schema: base pointer is offset")
             lhs, rhs = _p(simp(N * per)), _p(simp(size))
+            rows = None
             if not (lhs - rhs).is_zero():
-                raise CheckerError("fill schema: N*%d (%s) is not the block size (%s)" % (per, lhs, rhs))
+                # a prefix of leading rows: N*per == r * (product of the trailing dimensions), r <= shape[0]
+                trail = z3.IntVal(1)
+                for d in b.shape[1:]:
+                    trail = trail * d
+                comps = decompose(lhs, [_p(z3.IntVal(1)), _p(simp(trail))])
+                if comps is None or not comps[1].is_zero():
+                    raise CheckerError("fill schema: N*%d (%s) is not a whole number of leading rows of %s (block size %s)" % (per, lhs, b.name, rhs))
+                rows = comps[0].to_z3()
+                self.oblige("fill", st, z3.And(rows >= 0, rows <= b.shape[0]), n, label="fill%d: %s rows of %s" % (ordinal, rows, b.name))
             # which cells of each group of `per` are written: offset of rest within pointee
             dims = arr_dims(base.pointee)
             off = 0
@@ -1413,6 +1429,8 @@ class CExec:
                 hit = z3.BoolVal(True)
             else:
                 hit = (flat % per == off)
+            if rows is not None:
+                hit = z3.And(hit, idx[0] < rows)
             st.pc.append(z3.ForAll(idx, z3.Implies(rng, z3.Select(new, *idx) == z3.If(hit, v, z3.Select(st.mem[b], *idx)))))
             st.mem[b] = new
             ob = self.sink.add(self.prefix, "fill", [], z3.BoolVal(True), meta={"label": "%s: loop matches the fill schema for %s" % (tag, b.name)})
@@ -1572,8 +1590,9 @@ class CExec:
         same = z3.And(*[a == b_ for a, b_ in zip(wc, ec2)])
         goal = z3.Not(z3.And(wpc, epc2, distinct, same))
         self.sink.add(self.prefix, "race", list(self.facts), goal,
-                      meta={"label": "%s: %s of %s%s vs %s %s%s in another iteration" % (
-                          tag, "write", b.name, [str(simp(c_)) for c_ in wc][:4], "write" if e[0] == "w" else "read", b.name, [str(simp(c_)) for c_ in ec][:4]),
+                      meta={"label": "%s: write of %s (line %s: %s) vs %s (line %s: %s) in another iteration" % (
+                          tag, b.name, self.cur_file.line_of(w[3]) if w[3] else "?", self.cur_file.src(w[3])[:60] if w[3] else "",
+                          "write" if e[0] == "w" else "read", self.cur_file.line_of(e[3]) if e[3] else "?", self.cur_file.src(e[3])[:60] if e[3] else ""),
                           "line": self.cur_file.line_of(w[3]) if w[3] else None})
 
     # ------------------------------------------------------------ top level
